@@ -23,6 +23,16 @@ if ! CARGO_NET_OFFLINE=true cargo build --offline --bin "$bin" >"$vh/build.log" 
 	echo "MACHINERY-ERROR build failed (see $vh/build.log)" >&2; tail -30 "$vh/build.log" >&2; exit 2
 fi
 export VERIF_HARNESS_DIR="$vh/harness" VERIF_OUT="$vh/out" VERIF_REPO="$wt" VERIF_BIN_TARGET="$vh/target-bin" RUST_BACKTRACE=0 RUST_LIB_BACKTRACE=0
+case "$id" in C15|C20)
+	if ! CARGO_NET_OFFLINE=true cargo build --offline --profile relcheck --bin "$bin" >"$vh/build-rel.log" 2>&1; then
+		echo "MACHINERY-ERROR relcheck build failed (see $vh/build-rel.log)" >&2; tail -30 "$vh/build-rel.log" >&2; exit 2
+	fi
+	VERIF_OUT="$vh/out/relcheck" VERIF_PROFILE=release-like "$vh/target/relcheck/$bin" "$@"
+	rc=$?
+	[ $rc -ge 128 ] && rc=2
+	[ $rc -ne 0 ] && exit $rc
+	;;
+esac
 "$vh/target/debug/$bin" "$@"
 rc=$?
 if [ $rc -ge 128 ]; then
